@@ -82,7 +82,7 @@ RULE = (
     "radii 0.1-4 um, distances from the validity limit (R for Faxen/Brenner with a 1e-3 margin, 1.5R for the hydrodynamic "
     "model) to 1e3 R, T over each model's range, molality 0-5.9 mol/kg (molarity 0-5.25 M), 0.1-35 MPa, separations from contact "
     "to 100 diameters) + seeded log-uniform random points with boundary bias (exact range ends, f=0, R/h=1 for Faxen, l=1.5R, "
-    "bead gap down to 1e-6 R; touching beads only as the F9 corpus inputs) + sequences: chains of 1-3 motion-blur / aliasing "
+    "bead gap down to 1e-6 R; touching beads only as the F14 corpus inputs) + sequences: chains of 1-3 motion-blur / aliasing "
     "steps in every order on one model object (exposure = 1/sample rate and f at Nyquist as boundaries), every object of the "
     "lineage evaluated twice; lists of 3-10 public viscosity/density queries in one process drawn from small pools of "
     "temperatures, molarities (0-5 M) and pressures (None, 0.1, 0.101325, 35 MPa, random) so that two coordinates repeat while "
@@ -111,7 +111,7 @@ TRUSTED = [
 ASSUMPTIONS = [
     "np.sqrt of the complex number r+0i is the principal root: real for r >= 0, +i sqrt(-r) for r < 0 (negative frequencies are reached through aliasing only); the hydrodynamic theorems are stated for f >= 0",
     "Brenner factor: distances h >= R(1+1e-3) in generated cases (the denominator vanishes at h = R; cancellation amplifies rounding by 1/(1-R/h))",
-    "bead-bead separations d >= 2R(1+1e-6) in generated cases (closer: open finding F9, corpus only)",
+    "bead-bead separations d >= 2R(1+1e-6) in generated cases (closer: open finding F14, corpus only)",
     "molality <= 5.9 mol/kg (5.25 M) in generated cases: at the model's edge m = 6 the brentq round trip lands a rounding error outside the validity check",
     "public water functions (waterseq): molarity <= 5 M for T <= 90 C and <= 4.7 M above (molality stays below ~5.8 mol/kg, away from the validity edge), viscosity_of_water(T, 0.0) without a pressure is not generated (0.0 is falsy: the code answers with the Huber formula)",
     "after _set_drag the oracle accepts the published spectrum with either bulk drag coefficient (the one the model was built with, which is what the code and the model keep, or the transferred one): the property does not say which; the distance to the surface, radius and densities must be the model's",
@@ -1366,7 +1366,7 @@ def nontrivial(case, ia):
 def tags(case, r):
     t = {"op": case["op"]}
     if case["op"] == "contact":
-        # F9: the Stimson-Jeffery series is evaluated in bispherical coordinates that degenerate at contact
+        # F14: the Stimson-Jeffery series is evaluated in bispherical coordinates that degenerate at contact
         t["stimson_gap_below_1e-8_radius"] = (case["d"] - 2 * case["R"]) / case["R"] < 1e-8
     return t
 
@@ -1541,7 +1541,7 @@ def corpus():
     yield {"stream": "corpus", "op": "wall", "R": 0.5e-6, "h": 0.75e-6, "h2": 1.0e-6}
     yield {"stream": "corpus", "op": "couple", "R": 0.5, "d": 1.0001, "d2": 1.0002, "theta": 0.0, "is_y": False, "rot": True}
     yield {"stream": "corpus", "op": "couple", "R": 0.5, "d": 1.001, "d2": 2.0, "theta": 0.3, "is_y": True, "rot": False}
-    # F9 (open) lives in corpus/C20/F9_stimson_one_ulp_gap.json; a gap of 1e-5 R is fine:
+    # F14 (open) lives in corpus/C20/F14_stimson_one_ulp_gap.json; a gap of 1e-5 R is fine:
     yield {"stream": "corpus", "op": "contact", "R": 1.0, "d": 2.00001}
     yield {"stream": "corpus", "op": "couple", "R": 2.2, "d": 440.0, "d2": 441.0, "theta": 1.2, "is_y": False, "rot": False}
     yield {"stream": "corpus", "op": "salt", "T": 20.0, "m": 0.0, "p": 0.101325, "m2": 0.01, "T2": 20.5}
@@ -1989,7 +1989,7 @@ def _all_cases(tier, rng):
     yield from load_corpus_files()
     yield from corpus()
     if tier != "quick":
-        # F9 at exact contact: NaN after 100000 summands (~6 s), thorough tier only
+        # F14 at exact contact: NaN after 100000 summands (~6 s), thorough tier only
         yield {"stream": "corpus", "op": "contact", "R": 0.5, "d": 1.0}
     yield from malformed(rng, 60 if tier == "quick" else 1500)
     yield from grid(tier)
